@@ -180,6 +180,13 @@ class Filter(object):
                 # Make sure the feature name is valid.
                 raise ValueError("Unknown scalar feature name '{}'!".format(f))
 
+        # Features that became available after their box filter was
+        # configured (e.g. temporary features) do not have a box filter yet.
+        for feat in self.features:
+            if (feat not in self._box_filters
+                    and (feat + " min" in cfg_cur or feat + " max" in cfg_cur)):
+                feat2filter.append(feat)
+
         feat2filter = np.unique(feat2filter)
 
         # Check the configuration before modifying any box filter, such
